@@ -6,7 +6,8 @@ The real middleware classes are executed; nothing is mocked below them.  Four ki
       Enumerated: mode {legacy, modern} x trusted_hops {0..3} (thorough 0..4) x target header {x-forwarded-for, -proto,
       -host | forwarded} x EVERY distribution of n <= 3 (thorough 4) list items over <= 3 header fields of <= 3 items x
       EVERY assignment of a 4-value alphabet to the items x separator/name-case style {",", ", ", " , " + Mixed-Case
-      name} x companion headers {absent, short, long (+ a header of the other form that must be ignored)} x scope kind
+      name} x companion headers {absent, short, long (+ a header of the other form that must be ignored)} (quick: 5
+      of the 9 style x companion combinations for the legacy headers) x scope kind
       x attacker prefix {none, extra leading field, leading list items, both, multi-item mixed-case field, field(s) of
       the other form}.  pfx: the same structure over exotic RFC 7239 spellings (quoted, upper-case parameters, IPv6,
       obfuscated, empty element) where only the safety clauses are demanded.
@@ -35,6 +36,7 @@ Oracle clauses (reference rules in mc/x_c19c20_ref.py):
   redirect-location / redirect-missing / secure-passthrough
   fanout-early-complete / fanout-complete-twice / fanout-complete-lost   outer lifespan.X.complete sent before every
                             mount sent its own / more than once / not at all although every mount did
+  middleware-raised         the middleware raised on an input of the enumerated space
   e2e-* / dispatch-404*     the same statements observed at the wire (keys ...:e2e-...)
 """
 from __future__ import annotations
@@ -713,13 +715,17 @@ def do_e2e(params: tuple, prefix: List[int]) -> ExecResult:
 def scenarios(tier: str) -> List[Any]:
     fams: List[Any] = []
     hops_range = range(0, 4) if tier == "quick" else range(0, 5)
+    combos = [(s, o) for s in (0, 1, 2) for o in (0, 1, 2)]
+    if tier == "quick":  # separator/name style x companion headers: a covering selection for the legacy headers
+        legacy_combos = [(0, 0), (1, 1), (2, 2), (0, 2), (1, 0)]
+    else:
+        legacy_combos = combos
     for hops in hops_range:
-        for style in (0, 1, 2):
-            for others in (0, 1, 2):
-                for ti in (0, 1, 2):
-                    fams.append(("pf", "legacy", ti, hops, style, others))
-            for others in (0, 1, 2):
-                fams.append(("pf", "modern", 3, hops, style, others))
+        for style, others in legacy_combos:
+            for ti in (0, 1, 2):
+                fams.append(("pf", "legacy", ti, hops, style, others))
+        for style, others in combos:
+            fams.append(("pf", "modern", 3, hops, style, others))
         fams.append(("pfx", hops))
     fams.append(("pf-lifespan",))
     fams += [("disp", cls, stype) for cls in ("asyncio", "trio") for stype in ("http", "websocket")]
@@ -776,7 +782,14 @@ def execute(params: Any, prefix: List[int]) -> ExecResult:
         return do_fan(params, prefix)
     if params[0] == "e2e":
         return do_e2e(params, prefix)
-    return _DIRECT[params[0]](params)
+    try:
+        return _DIRECT[params[0]](params)
+    except HarnessError:
+        raise
+    except Exception as e:  # the middleware itself raised on an input of the enumerated (valid) space
+        from mc.harness import exc_site
+
+        return result(params, [V("middleware-raised", f"{params[0]}:{exc_site(e)}", repr(e))], ("raised", type(e).__name__), True)
 
 
 def _tuplify(o: Any) -> Any:
@@ -785,5 +798,16 @@ def _tuplify(o: Any) -> Any:
 
 def explore_item_custom(params: Any, tier: str, deadline: float) -> dict:
     if params[0] in ("fan", "e2e"):
-        return explore_item(execute, params, bounds(tier, params), deadline, MAX_EXEC_PER_ITEM)
+        seen: set = set()
+
+        def once(p: Any, prefix: List[int]) -> ExecResult:
+            # one witness per (clause, key) and scenario, so that a defect showing in every interleaving does not
+            # crowd other violations out of the framework's bounded lists
+            r = execute(p, prefix)
+            fresh = [v for v in r.violations if (v["clause"], v["key"]) not in seen]
+            seen.update((v["clause"], v["key"]) for v in fresh)
+            r.violations = fresh
+            return r
+
+        return explore_item(once, params, bounds(tier, params), deadline, MAX_EXEC_PER_ITEM)
     return run_family(execute, cases(params, tier), deadline)
